@@ -196,7 +196,7 @@ pub fn run_check(prop: &str, tier: &str) -> i32 {
             crate::tracing::bulk(&mut run, if tier == "quick" { 150 } else { 1000 });
             run.finish()
         }
-        "C18" => histex_check(prop, tier, &[hp("recaps", 3, 5)], &["C18."], HX),
+        "C18" => histex_check(prop, tier, &[hp("recaps", 3, 5), hp("recapshyb", 4, 5)], &["C18."], HX),
         "C19" => crate::sched::check(prop, tier),
         _ => machinery(&format!("no check for {prop}")),
     }
